@@ -7,7 +7,8 @@ from vf import gen
 unit = sys.argv[1]
 width = sys.argv[2] if len(sys.argv) > 2 and not sys.argv[2].startswith("--") else "u32"
 vac = "--vac" in sys.argv
-g = gen.generate(os.path.join(ROOT, "units", unit + ".rs"), width, vacuity=vac)
+g = gen.generate(unit if unit.endswith(".rs") else os.path.join(ROOT, "units", unit + ".rs"), width, vacuity=vac)
+unit = os.path.splitext(os.path.basename(unit))[0]
 os.makedirs(os.path.join(ROOT, "build"), exist_ok=True)
 f = os.path.join(ROOT, "build", "dev_%s_%s.rs" % (unit, width))
 open(f, "w").write(g.text)
